@@ -3149,3 +3149,55 @@ func ruleOneHeaderRow(c *eng.Ctx) {
 		c.Check(bad == token.NoPos, R, eng.FuncName(root), root.Pos(), "one row is written before the delimiter row", "a loop over the rows writes cell text before the delimiter row ("+c.P.Pos(bad)+"): with more than one line in front of the delimiter the first is no longer part of the table")
 	}
 }
+
+// R16.13 [C16]
+func ruleInlineContainersRecursive(c *eng.Ctx) {
+	const R = "R16.13-INLINE-CONTAINER-MODEL"
+	c.Rule(R, "an element that the ODT inline reader decodes into a struct of its own (a span, a hyperlink) is an inline container: the struct is read with the inline reader again (a custom UnmarshalXML that calls decodeInlineContent), so the text of nested spans and of <text:s>, <text:tab>, <text:line-break> inside it is kept; a struct with plain `,chardata` keeps only the direct character data", 1, 0)
+	root := c.P.Func("odt.decodeInlineContent")
+	if root == nil {
+		c.Undec(R, "odt.decodeInlineContent", token.NoPos, "anchor not found")
+		return
+	}
+	n := 0
+	for _, fn := range eng.Cluster(root, 2) {
+		if fn.Pkg != root.Pkg {
+			continue
+		}
+		for _, ci := range eng.Calls(fn, false, func(nm string, _ ssa.CallInstruction) bool { return nm == "encoding/xml.(*Decoder).DecodeElement" }) {
+			args := ci.Common().Args
+			if len(args) < 2 {
+				continue
+			}
+			v := args[1]
+			if mi, ok := v.(*ssa.MakeInterface); ok {
+				v = mi.X
+			}
+			pt, ok := v.Type().Underlying().(*types.Pointer)
+			if !ok {
+				continue
+			}
+			nt, ok := pt.Elem().(*types.Named)
+			if !ok {
+				continue
+			}
+			n++
+			um := c.P.FuncExact("odt.(*" + nt.Obj().Name() + ").UnmarshalXML")
+			okRec := false
+			if um != nil {
+				for _, h := range eng.Cluster(um, 1) {
+					for _, cc := range eng.Calls(h, false, func(string, ssa.CallInstruction) bool { return true }) {
+						if eng.StaticCallee(cc) == root {
+							okRec = true
+						}
+					}
+				}
+			}
+			c.Check(okRec, R, fmt.Sprintf("odt <%s>", nt.Obj().Name()), ci.Pos(), "read with the inline reader",
+				"the element is decoded into "+nt.Obj().Name()+" without reading its children with the inline reader: text of spans, blanks, tabs and line breaks nested in it is lost")
+		}
+	}
+	if n == 0 {
+		c.Ok(R, "odt.decodeInlineContent#containers", root.Pos(), "no inline element is decoded into a struct of its own")
+	}
+}
